@@ -56,6 +56,7 @@ theorem taskReinsert_eq (s : State) (t : TaskId) (pos : Nat) :
 theorem taskSwitchPrefix_eq (s : State) (t : TaskId) :
     Gen.Intr.taskSwitchPrefix s t none = (Gen.Intr.taskReinsert s t 0).map (fun s' => (s', Susp.sleep0)) := by
   unfold Gen.Intr.taskSwitchPrefix
+  dsimp only          -- named constants / aliases (`let first := 0`) are unfolded
   cases Gen.Intr.taskReinsert s t 0 <;> rfl
 
 /-- task_throw never raises ValueError -/
